@@ -271,6 +271,55 @@ def lookalike_job(arg):
     return rep
 
 
+def shadow_local_job(arg):
+    """A variable of an accepted nested module read through its module (settings.LIMIT, pkg.conf.settings.LIMIT) by a
+    function that also has a local variable spelled like the last or an inner name of that chain (LIMIT = settings.LIMIT;
+    conf = ...): an edit of the variable changes the value the evaluation returns."""
+    idx, which = arg
+    rep = core.Report("C14")
+    rep.evaluations = 1
+    R = "shl%d" % idx
+
+    def files(limit):
+        body = {"same-name-as-variable": "    LIMIT = settings.LIMIT\n    return ('K', LIMIT * 2)",
+                "same-name-as-inner-package": "    conf = 5\n    return ('K', %s.conf.settings.LIMIT * 2, conf)" % R,
+                "parameter-default-same-name": "    return ('K', inner())"}[which]
+        extra = "\n\ndef inner(LIMIT=None):\n    LIMIT = settings.LIMIT if LIMIT is None else LIMIT\n    return ('inner', LIMIT)\n" if which == "parameter-default-same-name" else ""
+        return {
+            R + "/__init__.py": "# pkg\n", R + "/conf/__init__.py": "# pkg\n",
+            R + "/conf/settings.py": "LIMIT = %d\n" % limit,
+            R + "/top.py": "import dds\nimport %s.conf.settings\nfrom %s.conf import settings\nfrom vp import vlog\n%s\n\ndef K():\n    vlog.hit('K')\n%s\n\n\ndef main():\n    return ('main', dds.keep('/c14/shadow', K))\n" % (R, R, extra, body),
+        }
+
+    def want(limit):
+        return ("main", {"same-name-as-variable": ("K", limit * 2), "same-name-as-inner-package": ("K", limit * 2, 5), "parameter-default-same-name": ("K", ("inner", limit))}[which])
+
+    case = {"shadow_local": True, "idx": idx, "which": which}
+    with core.Scratch("vp_c14h_") as td:
+        root = os.path.join(td, "code")
+        os.makedirs(root)
+        outs = []
+        for limit in (3, 5, 3):
+            seg = {"mode": "impl", "root": root, "accept": [R], "store": {"kind": "local", "dir": os.path.join(td, "store")},
+                   "steps": [{"write": files(limit), "how": "import", "modules": [R + ".top"], "entry": {"style": "eval", "module": R + ".top", "func": "main", "args_src": "()"}}]}
+            o = core.fork_call(run_segment, seg, timeout=300)
+            if isinstance(o, core.JobFailed):
+                rep.inconclusive.append("worker: %r" % (o,))
+                return rep
+            outs.append((limit, o["steps"][0]))
+    for limit, x in outs:
+        if "setup_error" in x:
+            rep.inconclusive.append(x["setup_error"][-300:])
+            return rep
+        rep.count("shadowing_local_evaluations")
+        if x["result"][0] != "ok" or pickle.loads(x["result"][1]) != want(limit):
+            rep.violate("module variable read through its module next to a local variable (%s): with LIMIT = %d the evaluation gives %s, plain execution %r" % (which, limit, x["result"][2][:120] if x["result"][0] == "ok" else x["result"][1:3], want(limit)),
+                        case, mechanism="module-attribute-read-next-to-same-named-local")
+            return rep
+    rep.nontriv(("c14shadow", which))
+    return rep
+
+
 def self_accept_job(arg):
     """A library package that accepts itself when it is imported (dds.accept_module in its __init__), first imported in
     the process by a function-local import of the pipeline: its functions and variables are tracked from the first
@@ -494,9 +543,12 @@ def run(tier, seed):
     for edit in ("const", "var"):
         idx += 1
         jobs.append(("self", (idx, edit)))
+    for which in ("same-name-as-variable", "same-name-as-inner-package", "parameter-default-same-name"):
+        idx += 1
+        jobs.append(("shadow", (idx, which)))
 
     def dispatch(j):
-        return {"case": case_job, "refused": refused_job, "late": late_accept_job, "order": accept_order_job, "spell": spellings_job, "look": lookalike_job, "self": self_accept_job}[j[0]](j[1])
+        return {"case": case_job, "refused": refused_job, "late": late_accept_job, "order": accept_order_job, "spell": spellings_job, "look": lookalike_job, "self": self_accept_job, "shadow": shadow_local_job}[j[0]](j[1])
 
     results = core.fork_map(dispatch, jobs, timeout=900)
     for j, r in zip(jobs, results):
@@ -517,7 +569,9 @@ def run(tier, seed):
 def replay(payload):
     rep = core.Report("C14")
     c = payload["case"]
-    if c.get("self_accept"):
+    if c.get("shadow_local"):
+        rep.merge(shadow_local_job((c["idx"], c["which"])))
+    elif c.get("self_accept"):
         rep.merge(self_accept_job((c["idx"], c["edit"])))
     elif c.get("lookalike"):
         rep.merge(lookalike_job((c["idx"], c["sep"], c["order"], c["edit"])))
